@@ -16,3 +16,6 @@ func hBit(m *Mask, j uint8) bool {
 }
 
 func hIDInRange(j uint8) bool { return j < 64 }
+
+// hSetBit ors bit id into m without branching on v.
+func hSetBit(m *Mask, id uint8, v bool) { m.bits |= vB2U(v) << (id & 63) }
